@@ -85,3 +85,6 @@ Definition go_range_idx {S R} (n : Z) (s : S) (body : Z -> S -> res (ctl S R)) :
   go_count_from 0 (Z.to_nat n) s body.
 
 Definition bytes_of_Z (l : list Z) : bytes := map (fun z => b8 (Z.to_N z)) l.
+
+(* make([]int, n) (also the named key.Ops) *)
+Definition go_make_ints (n : Z) : res (list Z) := if n <? 0 then Panic else Ok (repeat 0 (Z.to_nat n)).
